@@ -3,8 +3,10 @@ import json
 
 
 def to_hist(progs, choice):
-    h = [{"op": "New", "h": 1, "a": 0, "b": 1, "n": 0}]
-    if choice == "dropup":
+    h = [{"op": "New", "h": 1, "a": 0, "b": 0 if choice == "uniq" else 1, "n": 0}]
+    if choice == "uniq":
+        h.append({"op": "Subscribe", "h": 1, "a": 0, "b": 0, "n": 2})
+    elif choice == "dropup":
         h.append({"op": "Downgrade", "h": 1, "a": 0, "b": 0, "n": 2})
     else:
         h.append({"op": "CloneOwner", "h": 1, "a": 0, "b": 0, "n": 2})
